@@ -34,7 +34,14 @@ MsgOf(t, i) == 100 * t + i                       \* unique message of the panic 
 
 MatchRet(t, i) == MatchFrom(Scripts[t], i + 1, 0)
 
-ScriptSet == {s \in UNION {[1..n -> Ops] : n \in 0..MaxLen} : WellBracketed(s)}
+(* scripts: every sequence of at most MaxLen steps that never returns from a frame it has not entered; frames  *)
+(* still open at the end are closed by appended returns (so a script of MaxLen written steps may nest MaxLen   *)
+(* frames deep, e.g. enable, enter, disable, enter, panic)                                                     *)
+PrefixOK(s) == \A j \in 1..Len(s) :
+                 Cardinality({x \in 1..j : s[x] = "ret"}) <= Cardinality({x \in 1..j : s[x] = "enter"})
+Opens(s) == Cardinality({x \in 1..Len(s) : s[x] = "enter"}) - Cardinality({x \in 1..Len(s) : s[x] = "ret"})
+Close(s) == s \o [i \in 1..Opens(s) |-> "ret"]
+ScriptSet == {Close(s) : s \in {q \in UNION {[1..n -> Ops] : n \in 0..MaxLen} : PrefixOK(q)}}
 
 Init == /\ Scripts \in [Threads -> ScriptSet]
         /\ lvlog = [t \in Threads |-> <<>>]
